@@ -4,8 +4,6 @@ import (
 	"errors"
 	"strings"
 
-	"0chain.net/smartcontract/stakepool/spenum"
-
 	"0chain.net/smartcontract/partitions"
 	"0chain.net/smartcontract/provider"
 	"0chain.net/smartcontract/stakepool"
@@ -61,16 +59,7 @@ func (_ *StorageSmartContract) killBlobber(
 
 			return blobber, sp, nil
 		},
-		func(req provider.ProviderRequest) error {
-			stakePool, err := getStakePool(spenum.Blobber, req.ID, balances)
-			if err != nil {
-				return err
-			}
-
-			stakePool.TotalOffers = 0
-
-			return stakePool.Save(spenum.Blobber, req.ID, balances)
-		},
+		nil,
 		balances,
 	)
 
